@@ -361,6 +361,12 @@ def oracle_shells(ctx, scale, rs):
     rots = [("crystallographic", R) for R in sel] + [("random", rand_O3(rs)) for _ in range(ctx.n(6, 40) * scale)]
     rots.append(("identity", np.eye(3)))
     rots.append(("inversion", -np.eye(3)))
+    # the six axis-aligned two-fold rotations and mirrors (diagonal +-1 matrices) are ALWAYS included, for every
+    # shell and in both tiers: they are the operations every orthorhombic/tetragonal/cubic site group contains and
+    # the natural target of special-casing in the code (a sampled subset of the 72 operations can miss all of them)
+    for sg in itertools.product((1, -1), repeat=3):
+        if len(set(sg)) > 1:
+            rots.append(("axis-aligned", np.diag(np.array(sg, dtype=float))))
     nf = 0
     for shell, l in (("s", 0), ("p", 1), ("d", 2), ("f", 3)):
         names = orbitals_sets_dic[shell]
@@ -369,11 +375,11 @@ def oracle_shells(ctx, scale, rs):
         if shell == "f":   # sympy expansion of the f shell costs ~1 s per new rotation: interleave random and crystallographic
             rnd = [r for r in rots if r[0] == "random"]
             cry = [r for r in rots if r[0] == "crystallographic"]
-            rots_shell = [r for r in rots if r[0] in ("identity", "inversion")] + \
+            rots_shell = [r for r in rots if r[0] in ("identity", "inversion", "axis-aligned")] + \
                 [x for pair in itertools.zip_longest(rnd, cry) for x in pair if x is not None]
         for kind, R in rots_shell:
             if shell == "f":
-                if nf >= ctx.n(8, 60) * scale and kind not in ("identity", "inversion"):
+                if nf >= ctx.n(8, 60) * scale and kind not in ("identity", "inversion", "axis-aligned"):
                     continue
                 nf += 1
             case = dict(what="OrbitalRotator shell", shell=shell, kind=kind, R=R)
